@@ -195,7 +195,7 @@ def judge(ctx, p, outcome):
         le, lf = We.labs[name], Wf.labs[name]
         wells = common.real_wells(le)
         ctx.prove(ctx.all_of([ctx.eq(le._volumes[w], lf._volumes[w]) for w in wells]), f"C16: volumes of {name} differ between the devices")
-        if ke == "ok":
+        if ke == "ok" or type(ee) is type(ef):   # also after the same rejection: the labware are left identical
             ce, cf = le.composition or {}, lf.composition or {}
             if set(ce) != set(cf):
                 ctx.violate(f"C16: composition components of {name} differ: {sorted(ce)} vs {sorted(cf)}")
